@@ -7,15 +7,15 @@ NOTE = ("Trusted: Coq 8.16.1 kernel; ExtrOcamlBasic extraction + OCaml glue; C++
 CLAIMS = {
  "C07": ("Coq theorems for all sizes/index patterns: the nine format conversions, copies, the three transposes (dimensions exchanged), sort, "
          "move_diag, remove_duplicates (drop of sums below 1e-16 only) and add/subtract preserve / transpose / add the represented operator `den`; "
-         "BSR->CSR represents the sum of the stored blocks when the dropped scalars are exact zeros; tie: extracted model vs C++ classes on generated chains of operations (per-line multisets) + dense image of the implementation's output.",
+         "BSR->CSR represents the sum of the stored blocks when the dropped scalars are exact zeros; block forms by slice naturality; distributed counterparts over every list of rank states: the nine ParCOO/ParCSR/ParCSC conversions, ParCSRMatrix::transpose (for every package accepted by the reverse check of C03) and add/subtract with different off-process column maps; tie: extracted model vs C++ classes on generated chains of operations (per-line multisets), local blocks of the distributed results, + dense image of the implementation's output.",
          NOTE + "Distributed counterparts (Dist/ParConv.v): conversions between ParCOO/ParCSR/ParCSC, ParCSRMatrix::transpose (reverse exchange of packed columns + finalize) and add/subtract with different off-process column maps are modelled over the list of rank states, proved (C07_par_conversions, C07_par_transpose, C07_par_add_subtract) and tied through the local blocks of the result, storage order included; distributed block forms: dense image only. Block formats BCOO/BSR/BSC: conversions, sort, move_diag, transposes, remove_duplicates proved by slice naturality and tied by chains of operations.",
          "Coq proof over Gallina model + model/implementation correspondence"),
  "C02": ("Coq theorems: every SpMV kernel (b=Ax, b+=Ax, b-=Ax, r=b-Ax, A^T variants) of COO/CSR/CSC equals the product with the represented operator for all "
          "matrices/vectors; distributed A x, b + A x, b - A x: each rank's rows equal the rows of the global operator gden applied to the global vector, for every list of rank "
          "states (any process count, any contiguous partition, empty ranks) and every package accepted by the forward check of C03; distributed A^T x = global transpose product "
-         "summed over all ranks' rows for every package accepted by the reverse check, independent of the previous content of b; block kernels = scalar kernels of the expanded blocks; the same four products through the node-aware packages (model of tap_mult / tap_mult_T composed with the exchange theorems of C04) equal the global products. Tie: extracted kernels and distributed model "
+         "summed over all ranks' rows for every package accepted by the reverse check, independent of the previous content of b; block kernels = scalar kernels of the expanded blocks; distributed block (ParBSR) products = rows of the operator the stored blocks represent, for every package accepted on BLOCK ids (the check lifts to the expanded package); assembly (add_global_value, finalize, to_ParCSR) represents the user's triples; the same four products through the node-aware packages (model of tap_mult / tap_mult_T composed with the exchange theorems of C04) equal the global products. Tie: extracted kernels and distributed model "
          "(assembly with duplicates, package construction, exchange) vs the library on all formats, default/explicit/empty-rank partitions, tap on/off; dense reference; stale-output sentinel.",
-         NOTE + "Block formats (BCOO/BSR/BSC): the kernels are proved for the row-major expansion of the blocks (with its denotation in terms of the blocks) and the expansion is what the correspondence compares with the library's block kernels; the distributed block products are not modelled. The package checks are discharged for the standard constructor by C03's construction theorem and checked on dumps otherwise.",
+         NOTE + "Block formats (BCOO/BSR/BSC): the kernels are proved for the row-major expansion of the blocks (with its denotation in terms of the blocks) and the expansion is what the correspondence compares with the library's block kernels; the distributed block products are proved on the expanded rank states and the expanded package (Dist/ParBlock.v; expand_world tied through C03's block exchange), the implementation's ParBSR products compared with the scalar model and the dense oracle. The package checks are discharged for the standard constructor by C03's construction theorem and checked on dumps otherwise.",
          "Coq proof over Gallina model + model/implementation correspondence"),
  "C03": ("Coq theorems about the package model (world of per-rank send/receive lists): forward exchange is natural in the payload, so one check on the vector of "
          "global ids (run by the extracted verified checker on the package dumped from the implementation on every run) implies that every vector/block/row payload "
